@@ -423,3 +423,241 @@ def lex_strings(rng, tier):
             yield "".join(t), "exhaustive"
 
 # }}}
+
+
+# {{{ slices OUTSIDE a subscript's own index list (C06)
+#
+# The text syntax has slices as expressions in their own right: the printer writes a slice bare
+# wherever the enclosing precedence is PREC_NONE (call argument, keyword value, tuple / list
+# element, subscript index, the whole text) and parenthesised everywhere else, and the parser reads
+# a colon in every one of those places.  What FOLLOWS the slice in the text (`)`, `,`, `]`, `=`-less
+# keyword boundary, an operator, the end of the input) differs from context to context, and for a
+# slice with an omitted last bound that follower comes directly after the colon.
+
+def slice_shapes(maxlen=3):
+    """every pattern of present / omitted bounds (True = present) of 2..maxlen parts that the text
+    can express: a slice ending in TWO omitted parts prints like the slice one part shorter
+    (known finding `slice-trailing-omitted`), so those are left to the subscript cases"""
+    for n in range(2, maxlen + 1):
+        for pat in itertools.product((True, False), repeat=n):
+            if not pat[-1] and not pat[-2]:
+                continue
+            yield pat
+
+
+def make_slice(pat, bounds):
+    """the slice with the given presence pattern; `bounds` supplies the present parts in order"""
+    it = iter(bounds)
+    return p.Slice(tuple(next(it) if present else None for present in pat))
+
+
+def slice_contexts():
+    """(tag, hole -> tree): every place of the text syntax an expression can stand in, with
+    different followers of the hole in the printed text (first / middle / last argument, keyword
+    value first / last, tuple and list element, index element, operand of every operator on either
+    side, branch / condition of a conditional, callee, aggregate)"""
+    c, d, f, g = p.Variable("c"), p.Variable("d"), p.Variable("f"), p.Variable("g")
+    out = []
+    for name, fn in BINARY.items():
+        if name == "Slice":
+            continue        # a slice as a bound of a slice: nested_slice_cases
+        out.append((name + ":L", lambda s, fn=fn: fn(s, c)))
+        out.append((name + ":R", lambda s, fn=fn: fn(c, s)))
+    for name, fn in UNARY.items():
+        out.append((name, lambda s, fn=fn: fn(s)))
+    out += [
+        ("top", lambda s: s),
+        ("Call:only", lambda s: p.Call(f, (s,))),
+        ("Call:first", lambda s: p.Call(f, (s, c))),
+        ("Call:middle", lambda s: p.Call(f, (c, s, d))),
+        ("Call:last", lambda s: p.Call(f, (c, d, s))),
+        ("Call:callee", lambda s: p.Call(s, (c,))),
+        ("Call:callee-noargs", lambda s: p.Call(s, ())),
+        ("CallKw:only", lambda s: p.CallWithKwargs(f, (), {"k": s})),
+        ("CallKw:after-positional", lambda s: p.CallWithKwargs(f, (c,), {"k": s})),
+        ("CallKw:first-kw", lambda s: p.CallWithKwargs(f, (c,), {"k": s, "l": d})),
+        ("CallKw:last-kw", lambda s: p.CallWithKwargs(f, (), {"k": d, "l": s})),
+        ("CallKw:positional", lambda s: p.CallWithKwargs(f, (s,), {"k": d})),
+        ("CallKw:last-positional", lambda s: p.CallWithKwargs(f, (c, s), {"k": d})),
+        ("Tuple:first3", lambda s: (s, c, d)),
+        ("Tuple:middle", lambda s: (c, s, d)),
+        ("Tuple:last3", lambda s: (c, d, s)),
+        ("Tuple:nested-last", lambda s: ((c, s), d)),
+        ("Tuple:nested-only", lambda s: ((s,),)),
+        ("Call:tuple-arg-last", lambda s: p.Call(f, ((c, s),))),
+        ("Call:tuple-arg-first", lambda s: p.Call(f, ((s, c), d))),
+        ("List:only", lambda s: [s]),
+        ("List:first", lambda s: [s, c]),
+        ("List:last", lambda s: [c, s]),
+        ("Index:only", lambda s: p.Subscript(g, s)),
+        ("Index:first", lambda s: p.Subscript(g, (s, c))),
+        ("Index:middle", lambda s: p.Subscript(g, (c, s, d))),
+        ("Index:last", lambda s: p.Subscript(g, (c, s))),
+        ("Index:of-call-last", lambda s: p.Subscript(g, p.Call(f, (c, s)))),
+        ("Index:of-tuple-last", lambda s: p.Subscript(g, ((c, s), d))),
+        ("Subscript:aggregate", lambda s: p.Subscript(s, c)),
+        ("Subscript:aggregate-tuple-index", lambda s: p.Subscript(s, (c, d))),
+        ("If:else", lambda s: p.If(c, d, s)),
+        ("Lookup:twice", lambda s: p.Lookup(p.Lookup(s, "u"), "w")),
+        ("Sum:middle", lambda s: p.Sum((c, s, d))),
+        ("Product:middle", lambda s: p.Product((c, s, d))),
+        ("Neg:of-call", lambda s: p.Product((-1, p.Call(f, (s,))))),
+        ("Power:exponent-of-call", lambda s: p.Power(c, p.Call(f, (d, s)))),
+    ]
+    return out
+
+
+SLICE_BOUNDS = [p.Variable("a"), p.Variable("b"), p.Variable("e"), 1, -2, 2.5, True,
+                p.Sum((p.Variable("a"), 1)), p.Product((-1, p.Variable("b"))),
+                p.Power(p.Variable("a"), 2), p.Call(p.Variable("h"), (p.Variable("a"),)),
+                p.Comparison(p.Variable("a"), "<", p.Variable("b")),
+                p.Subscript(p.Variable("v"), p.Variable("b")), p.LogicalNot(p.Variable("a")),
+                p.Call(p.Variable("h"), (p.Slice((p.Variable("a"), None)),)),
+                p.Subscript(p.Variable("v"), p.Slice((None, p.Variable("b"), None)))]
+
+
+def slice_context_cases(rng, tier):
+    """(tag, tree): every expressible slice shape in every context (plain variable bounds), then
+    every context with a random shape and random small bounds, then contexts nested in contexts"""
+    ctxs = slice_contexts()
+    shapes = list(slice_shapes(3 if tier == "quick" else 4))
+    names = [p.Variable(n) for n in ("a", "b", "e", "m")]
+    for pat in shapes:
+        s = make_slice(pat, names)
+        code = "".join("x" if t else "_" for t in pat)
+        for tag, ctx in ctxs:
+            yield f"slice-context:{tag}:{code}", ctx(s)
+
+    def rand_slice():
+        pat = rng.choice(shapes)
+        return make_slice(pat, [rng.choice(SLICE_BOUNDS) for _ in pat])
+
+    for tag, ctx in ctxs:
+        for _ in range(2 if tier == "quick" else 12):
+            yield f"slice-context:{tag}:bounds", ctx(rand_slice())
+    # two slices next to each other (the follower of the first is the separator, of the second the
+    # closing bracket), and a context inside a context
+    c, f, g = p.Variable("c"), p.Variable("f"), p.Variable("g")
+    for _ in range(40 if tier == "quick" else 600):
+        s1, s2 = rand_slice(), rand_slice()
+        yield "slice-context:pair", rng.choice([
+            lambda: p.Call(f, (s1, s2)), lambda: (s1, s2), lambda: p.Subscript(g, (s1, s2)),
+            lambda: p.CallWithKwargs(f, (s1,), {"k": s2}), lambda: p.Sum((s1, s2)),
+            lambda: p.CallWithKwargs(f, (), {"k": s1, "l": s2}), lambda: [s1, s2],
+            lambda: p.If(s1, c, s2), lambda: p.Comparison(s1, "==", s2)])()
+    # a list is an expression of the text syntax only at the top (inside a node it is not even
+    # hashable): no list context inside another context
+    inner = [tc for tc in ctxs if not tc[0].startswith("List")]
+    for _ in range(500 if tier == "quick" else 12000):
+        (t1, c1), (t2, c2) = rng.choice(ctxs), rng.choice(inner)
+        yield f"slice-context:{t1}/{t2}", c1(c2(rand_slice()))
+
+
+def expr_positions(e, path=()):
+    """paths of all the places in `e` where an expression of the text syntax stands (callee,
+    aggregate, operands, arguments, keyword values, tuple / list elements, index, present slice
+    bounds); names, operator strings and omitted slice bounds are not places"""
+    import dataclasses
+    yield path
+    if isinstance(e, (tuple, list)):
+        for i, ch in enumerate(e):
+            yield from expr_positions(ch, path + (i,))
+        return
+    if not isinstance(e, p.Expression) or not dataclasses.is_dataclass(e):
+        return
+    for fld in dataclasses.fields(e):
+        v = getattr(e, fld.name)
+        if isinstance(v, (tuple, list)) and fld.name in ("children", "parameters", "values", "index"):
+            if fld.name == "index":
+                yield from expr_positions(v, path + (fld.name,))
+                continue
+            for i, ch in enumerate(v):
+                if ch is not None:
+                    yield from expr_positions(ch, path + (fld.name, i))
+        elif hasattr(v, "items"):
+            for k, ch in v.items():
+                yield from expr_positions(ch, path + (fld.name, k))
+        elif isinstance(v, p.Expression) or (fld.name in ("aggregate", "function", "index", "child",
+                                                          "condition", "then", "else_", "left", "right",
+                                                          "numerator", "denominator", "base", "exponent",
+                                                          "shiftee", "shift", "dividend", "divisor")
+                                             and not isinstance(v, str)):
+            yield from expr_positions(v, path + (fld.name,))
+
+
+def replace_at(e, path, new):
+    """`e` with the place `path` (of `expr_positions`) holding `new`"""
+    import dataclasses
+    if not path:
+        return new
+    k, rest = path[0], path[1:]
+    if isinstance(e, tuple):
+        return tuple(replace_at(ch, rest, new) if i == k else ch for i, ch in enumerate(e))
+    if isinstance(e, list):
+        return [replace_at(ch, rest, new) if i == k else ch for i, ch in enumerate(e)]
+    v = getattr(e, k)
+    if isinstance(v, (tuple, list)) and k != "index":
+        i, rest = rest[0], rest[1:]
+        nv = type(v)(replace_at(ch, rest, new) if j == i else ch for j, ch in enumerate(v))
+    elif hasattr(v, "items"):
+        key, rest = rest[0], rest[1:]
+        nv = {kk: (replace_at(ch, rest, new) if kk == key else ch) for kk, ch in v.items()}
+    else:
+        nv = replace_at(v, rest, new)
+    return dataclasses.replace(e, **{k: nv})
+
+
+def under_slice(e, path):
+    """is the place `path` inside a bound of a slice (at any depth)?"""
+    cur = e
+    i = 0
+    while i < len(path):
+        if isinstance(cur, p.Slice):
+            return True
+        k = path[i]
+        if isinstance(cur, (tuple, list)):
+            cur = cur[k]
+            i += 1
+            continue
+        v = getattr(cur, k)
+        if (isinstance(v, (tuple, list)) and k != "index") or hasattr(v, "items"):
+            cur = v[path[i + 1]]
+            i += 2
+        else:
+            cur = v
+            i += 1
+    return False
+
+
+def slices_anywhere(rng, n, maxlen=3):
+    """random deep trees of the printable fragment with ONE place (any: chosen uniformly among all
+    places of the tree outside slice bounds) holding a slice of a random expressible shape with
+    random bounds.  Two thirds of the host trees are `tidy` (no one-operand n-ary nodes, two-operand
+    bitwise / logical nodes, closed slices of their own), so that the known findings about those
+    shapes do not hide the slice."""
+    g = SyntaxGen(rng)
+    shapes = list(slice_shapes(maxlen))
+    for i in range(n):
+        e = g.gen(rng.randint(1, 5))
+        if i % 3:
+            e = tidy(e)
+        places = [pt for pt in expr_positions(e) if not under_slice(e, pt)]
+        pt = rng.choice(places)
+        pat = rng.choice(shapes)
+        bounds = [g.gen(rng.randint(0, 2)) if rng.random() < 0.4 else g.leaf() for _ in pat]
+        if i % 3:
+            bounds = [tidy(b) for b in bounds]
+        yield replace_at(e, pt, make_slice(pat, bounds))
+
+
+def nested_slice_cases():
+    """a slice as a bound of a slice (printed without parentheses: known finding Slice>Slice)"""
+    a, b, c, v = p.Variable("a"), p.Variable("b"), p.Variable("c"), p.Variable("v")
+    inner = [p.Slice((a, b)), p.Slice((a, None)), p.Slice((None, b))]
+    for s in inner:
+        for outer in (p.Slice((s, c)), p.Slice((c, s)), p.Slice((None, s)), p.Slice((c, None, s))):
+            yield outer
+            yield p.Subscript(v, outer)
+            yield p.Call(v, (outer,))
+
+# }}}
